@@ -157,3 +157,38 @@ impl Out {
         self.w.flush().unwrap();
     }
 }
+
+/// Map the attributes of a decoded message back to positions of the wire TLVs (order preserving; by type, and by
+/// value where the value is observable through the public API). None = the decoded list is not a sub-sequence.
+pub fn map_positions(decoded: &[stun_rs::StunAttribute], wire: &[(u16, Vec<u8>)], unknown_data: bool) -> Option<Vec<usize>> {
+    use stun_rs::attributes::stun::*;
+    use stun_rs::StunAttribute as SA;
+    let mut pos = 0usize;
+    let mut out = vec![];
+    for a in decoded {
+        let ty = a.attribute_type().as_u16();
+        let mut found = None;
+        while pos < wire.len() {
+            let (wt, wv) = &wire[pos];
+            let vmatch = match a {
+                SA::Unknown(u) => match u.attribute_data() {
+                    Some(d) => unknown_data && d == &wv[..],
+                    None => !unknown_data,
+                },
+                SA::MessageIntegrity(m) => <[u8; 20]>::try_from(&wv[..]).map(|v| *m == MessageIntegrity::from(v)).unwrap_or(false),
+                SA::MessageIntegritySha256(m) => <[u8; 32]>::try_from(&wv[..]).map(|v| *m == MessageIntegritySha256::from(v)).unwrap_or(false),
+                SA::Fingerprint(f) => wv.len() >= 4 && *f == Fingerprint::from(<[u8; 4]>::try_from(&wv[..4]).unwrap()),
+                SA::Software(s) => s.as_str().as_bytes() == &wv[..],
+                _ => true,
+            };
+            if *wt == ty && vmatch {
+                found = Some(pos);
+                pos += 1;
+                break;
+            }
+            pos += 1;
+        }
+        out.push(found?);
+    }
+    Some(out)
+}
